@@ -314,7 +314,7 @@ fn touched(op: &Op, before: &Url, after: &Url) -> Vec<&'static str> {
             }
             v
         }
-        Op::SetQuery(_) | Op::Quirk("search", _) => {
+        Op::SetQuery(_) | Op::Quirk("search", _) | Op::Qpm(..) => {
             let mut v = vec!["query"];
             if before.cannot_be_a_base() && after.fragment().is_none() && after.query().is_none() {
                 v.push("path");
@@ -353,6 +353,42 @@ pub fn prop_c06(before: &Url, op: &Op, after: &Url, status: &str) -> Option<Stri
         }
     }
     None
+}
+
+/// C15 (URL clause): a query_pairs_mut session leaves retained pairs followed by appended ones and
+/// preserves everything else, the fragment included
+pub fn prop_c15_url(before: &Url, op: &Op, after: &Url) -> Option<String> {
+    let (fin, ops) = match op {
+        Op::Qpm(f, ops) => (*f, ops),
+        _ => return None,
+    };
+    let (before, after) = (std::panic::AssertUnwindSafe(before), std::panic::AssertUnwindSafe(after));
+    let ops = ops.clone();
+    guarded_opt(move || {
+        let mut expect: Vec<(String, String)> = before.query_pairs().map(|(k, v)| (k.into_owned(), v.into_owned())).collect();
+        for o in &ops {
+            match o {
+                QOp::Clear => expect.clear(),
+                QOp::AppendPair(k, v) => expect.push((k.clone(), v.clone())),
+                QOp::AppendKeyOnly(k) => {
+                    if !k.is_empty() {
+                        expect.push((k.clone(), String::new()))
+                    }
+                }
+                QOp::ExtendPairs(l) => expect.extend(l.iter().cloned()),
+            }
+        }
+        let got: Vec<(String, String)> = after.query_pairs().map(|(k, v)| (k.into_owned(), v.into_owned())).collect();
+        if got != expect {
+            return Some(format!("query_pairs after the session ({}) = {:?}, expected {:?}", if fin { "finish" } else { "drop" }, got, expect));
+        }
+        for ((name, a), (_, b)) in comps(&before).iter().zip(comps(&after).iter()) {
+            if *name != "query" && a != b {
+                return Some(format!("query_pairs_mut session ({}) changed {} from {} to {}", if fin { "finish" } else { "drop" }, name, a, b));
+            }
+        }
+        None
+    })
 }
 
 /// C08: reference-resolution laws for one (base, reference)
